@@ -132,9 +132,10 @@ func (d *uripostDecoder) readBlock(reader *bufio.Reader, commonHeader http.Heade
 	}
 
 	header := commonHeader.Clone()
+	// Headers from ammo file have priority over headers from config.
 	for k, vv := range d.decodedConfigHeaders {
-		for _, v := range vv {
-			header.Set(k, v)
+		if _, ok := header[k]; !ok {
+			header[k] = append([]string(nil), vv...)
 		}
 	}
 	a := d.pool.Get().(*ammo.Ammo)
